@@ -355,7 +355,51 @@ func genC08(r *rand.Rand, tier string, st *Stats) []Case {
 	for i := 0; i < sizes(tier, 300, 6000); i++ {
 		addCase(&cases, seen, st, "regex", regexSoup(r))
 	}
+	// non-ASCII input: the lexer classifies runes with unicode.IsDigit / IsLetter / IsSpace, so every
+	// Unicode category it distinguishes is placed at token starts and inside tokens of valid programs,
+	// alone, and as malformed UTF-8
+	for i := 0; i < sizes(tier, 500, 6000); i++ {
+		addCase(&cases, seen, st, "unicode", unicodeInsert(r))
+	}
 	return cases
+}
+
+var interestingRunes = []string{
+	"\u0663", "\u0969", "\uff13", "\u06f5", "\u07c3", // decimal digits of other scripts
+	"\u00e9", "\u03bb", "\u0416", "\u4e2d", "\u00df", "\u01c5", // letters (lower, upper, title, other)
+	"\u00a0", "\u2003", "\u3000", "\u0085", "\u2028", "\u1680", // spaces
+	"\u20ac", "\u2192", "\u00b2", "\u00bd", "\u2160", "\u0301", // symbols, No/Nl numbers, combining mark
+	"\U0001f600", "\ufeff", "\ufffd", // astral, BOM, replacement character
+	"\xff", "\xc3", "\xe2\x82", "\xc0\x80", "\xed\xa0\x80", // malformed UTF-8
+}
+
+func unicodeInsert(r *rand.Rand) string {
+	ru := interestingRunes[r.Intn(len(interestingRunes))]
+	switch r.Intn(5) {
+	case 0:
+		return ru
+	case 1:
+		return "find all " + ru + " 'a'"
+	case 2:
+		return []string{"find top ", "find skip ", "find all exactly ", "find all at least 1", "set f to transform return "}[r.Intn(5)] + ru + " 'a'"
+	}
+	p := genValid(r)
+	src := p.Src
+	spans := tokenSpans(src)
+	if len(spans) == 0 {
+		return src + ru
+	}
+	sp := spans[r.Intn(len(spans))]
+	switch r.Intn(4) {
+	case 0: // at a token start
+		return src[:sp[0]] + ru + src[sp[0]:]
+	case 1: // inside / at the end of a token
+		return src[:sp[1]] + ru + src[sp[1]:]
+	case 2: // replacing a token
+		return src[:sp[0]] + ru + src[sp[1]:]
+	default: // as its own token
+		return src[:sp[0]] + ru + " " + src[sp[0]:]
+	}
 }
 
 // ---------------------------------------------------------------------------
